@@ -152,10 +152,13 @@ func genC08(r *Run) {
 	var prev4 []byte
 	for i := 0; i < n4; i++ {
 		var w []byte
-		if i%2 == 0 {
+		switch i % 3 {
+		case 0:
 			w = r.v4WithTypedOptions()
-		} else {
+		case 1:
 			w = r.validWire(8)
+		default:
+			w = r.nonCanonWire()
 		}
 		if prev4 == nil {
 			prev4 = w
